@@ -1608,6 +1608,11 @@ pub async fn handle_cache(
                         )
                         .await
                     {
+                        // A streaming response is written by its future; it can't be replaced.
+                        Err(_) if future.is_some() => {
+                            let body = resp.get_identity().body().clone();
+                            utils::empty_clone_response(resp.get_identity()).map(|()| body)
+                        }
                         Err(message) => {
                             error::default(
                                 StatusCode::NOT_ACCEPTABLE,
@@ -1684,6 +1689,12 @@ pub async fn handle_cache(
                     )
                     .await
                 {
+                    // A streaming response is written by its future; it can't be replaced.
+                    Err(_) if future.is_some() => {
+                        let body = compressed_response.get_identity().body().clone();
+                        utils::empty_clone_response(compressed_response.get_identity())
+                            .map(|()| body)
+                    }
                     Err(message) => {
                         error::default(
                             StatusCode::NOT_ACCEPTABLE,
